@@ -423,6 +423,132 @@ func C10OneShot(sym string) {
 	}
 }
 
+// c10Documents: a JSON document object rewinds before Len() and Check() and afterwards, so
+// neither their results nor the lexeme stream read next may depend on how much of the
+// stream was read before, and a stream read from a fresh object equals the stream read after
+// Len() or Check(). Every prefix of {read k lexemes, Len, Check} up to three steps is tried
+// on every document, with and without the trailing-characters option.
+func c10Documents(w *core.W) {
+	type docCase struct {
+		name, text string
+		trailing   bool
+	}
+	var cases []docCase
+	for _, t := range []string{c10Doc, `{"a": tru}`, `123`, `"unterminated`, `{"a": [1, true]} GET /next`, "[1, 2]\n\nPOST /x", `7 8`, `null x`, `{} }`, ``, ` `, `[1,]`} {
+		cases = append(cases, docCase{"plain", t, false}, docCase{"allow-trailing", t, true})
+	}
+	mk := func(c docCase) schema.Document {
+		if c.trailing {
+			return jdoc.New("d", c.text, jdoc.AllowTrailingNonSpaceCharacters())
+		}
+		return jdoc.New("d", c.text)
+	}
+	drain := func(d schema.Document) string {
+		var b strings.Builder
+		for i := 0; i < 1000; i++ {
+			lex, err := d.NextLexeme()
+			if errors.Is(err, io.EOF) {
+				b.WriteString("EOF")
+				break
+			}
+			if err != nil {
+				b.WriteString("ERR " + errSnap(err))
+				break
+			}
+			b.WriteString(lex.String() + "=" + lex.Value().String() + ";")
+		}
+		return b.String()
+	}
+	steps := []string{"next1", "next3", "drain", "Len", "Check"}
+	var seqs [][]string
+	var rec func(h []string)
+	rec = func(h []string) {
+		seqs = append(seqs, append([]string{}, h...))
+		if len(h) == 3 {
+			return
+		}
+		for _, s := range steps {
+			rec(append(h, s))
+		}
+	}
+	rec(nil)
+	for _, c := range cases {
+		var stream, lenRes, checkRes string
+		if rec, site := guard(func() {
+			stream = drain(mk(c))
+			l, err := mk(c).Len()
+			lenRes = fmt.Sprint(l) + "|" + errSnap(err)
+			checkRes = errSnap(mk(c).Check())
+		}); rec != nil {
+			w.Violate(core.Violation{Clause: "no-panic", Entry: "document:" + c.name, Input: c.text, Detail: fmt.Sprintf("%v at %s", rec, site)})
+			continue
+		}
+		for _, h := range seqs {
+			w.S.Evaluations++
+			w.S.Traces++
+			w.S.Transitions += int64(len(h)) + 1
+			d := mk(c)
+			rewound := true // the position is at the start: nothing read since creation or since a rewinding call
+			lenDone, checkDone := false, false
+			bad := ""
+			rp, site := guard(func() {
+				for _, st := range h {
+					switch st {
+					case "next1", "next3":
+						n := map[string]int{"next1": 1, "next3": 3}[st]
+						for k := 0; k < n; k++ {
+							if _, err := d.NextLexeme(); err != nil {
+								break
+							}
+						}
+						rewound = false
+					case "drain":
+						got := drain(d)
+						if rewound && got != stream {
+							bad = fmt.Sprintf("stream read after %v is %q, read first from a fresh object it is %q", h, trunc(got, 120), trunc(stream, 120))
+						}
+						rewound = false
+					case "Len":
+						l, err := d.Len()
+						if got := fmt.Sprint(l) + "|" + errSnap(err); got != lenRes {
+							bad = fmt.Sprintf("Len() after %v is %q, on a fresh object %q", h, got, lenRes)
+						}
+						if !lenDone {
+							rewound = true
+						}
+						lenDone = true
+					case "Check":
+						if got := errSnap(d.Check()); got != checkRes {
+							bad = fmt.Sprintf("Check() after %v is %q, on a fresh object %q", h, got, checkRes)
+						}
+						if !checkDone {
+							rewound = true
+						}
+						checkDone = true
+					}
+					if bad != "" {
+						return
+					}
+				}
+				if rewound {
+					w.S.Nontrivial++
+					if got := drain(d); got != stream {
+						bad = fmt.Sprintf("stream read after %v is %q, read first from a fresh object it is %q", h, trunc(got, 120), trunc(stream, 120))
+					}
+				}
+			})
+			if rp != nil {
+				bad = fmt.Sprintf("panic %v at %s", rp, site)
+			}
+			if bad != "" {
+				w.Violate(core.Violation{Clause: "document-calls-independent", Entry: "document:" + c.name, Input: fmt.Sprintf("%q after %v", c.text, h), Detail: bad,
+					Sig: map[string]string{"doc": c.name, "last": h[len(h)-1]}})
+			}
+		}
+	}
+	w.Count("document_histories", int64(len(seqs)*len(cases)))
+}
+
 func c10References(w *core.W) map[string]string {
 	refs := map[string]string{}
 	self := filepath.Join(verifDirProps(), core.BuildDirName(), "mc-inst")
@@ -452,7 +578,7 @@ func init() {
 		ID:        "C10",
 		Inst:      true,
 		Technique: "exhaustive operation histories over several schema/rule/regex/document objects, each executed under every sync.Pool answer within a deviation bound with a scribbling pool model; every retained result is re-read after every step and compared with its snapshot and with the result of the same call made first in a brand-new process",
-		Rule:      "alphabet: 50 symbols = {Check, Example, GetAST, OpenAPI, Dereference, Len, UsedUserTypes} x 6 schema projects (deep valid with types, one with every rule kind the converter handles, shallow valid, fails in scanner, fails in rule loader, fails in checker) + enum rule {Check, Values, Len, GetAST} + regex {Check, Example, Len} + JSON document {Check, Len, lexeme stream}; repeated symbols act on the already used object; quick: all histories of length <=2 and those of length 3 that start with one of 13 disturbers; thorough: all of length <=4; pool answers: default (most recent), any older item, New(), <=1 (thorough 2) deviations; pooled buffers are overwritten with 0xEE when put back; non-trivial = histories with more than one explored pool environment",
+		Rule:      "alphabet: 50 symbols = {Check, Example, GetAST, OpenAPI, Dereference, Len, UsedUserTypes} x 6 schema projects (deep valid with types, one with every rule kind the converter handles, shallow valid, fails in scanner, fails in rule loader, fails in checker) + enum rule {Check, Values, Len, GetAST} + regex {Check, Example, Len} + JSON document {Check, Len, lexeme stream}; JSON document objects (12 texts, with and without the trailing-characters option) under every sequence of <=3 steps from {read 1, read 3, drain, Len, Check}: Len/Check results and the stream read from a rewound object equal those of a fresh object; repeated symbols act on the already used object; quick: all histories of length <=2 and those of length 3 that start with one of 13 disturbers; thorough: all of length <=4; pool answers: default (most recent), any older item, New(), <=1 (thorough 2) deviations; pooled buffers are overwritten with 0xEE when put back; non-trivial = histories with more than one explored pool environment",
 		Bounds: func(tier string) map[string]any {
 			return map[string]any{"history_length": map[string]int{"quick": 3, "thorough": 4}[tier], "pool_deviations": map[string]int{"quick": 1, "thorough": 2}[tier], "symbols": len(c10Alphabet())}
 		},
@@ -461,6 +587,9 @@ func init() {
 			if len(refs) < len(c10Alphabet())-4 {
 				w.Violate(core.Violation{Clause: "ENGINE-oneshot", Detail: fmt.Sprintf("only %d of %d fresh-process references obtained", len(refs), len(c10Alphabet()))})
 				return
+			}
+			if w.Shard == 0 {
+				c10Documents(w)
 			}
 			alpha := c10Alphabet()
 			L := 3
